@@ -45,7 +45,7 @@ m = {
         {"name": "zv", "path": "/verif/harness", "serves_properties": served,
          "kind_free_text": "Rust correspondence harness built against /repo's working tree on every check: runs the real code, a direct oracle of the property, and emits case files that coqc evaluates (vm_compute) against the model"}],
     "checks": checks,
-    "notes": "See DESIGN.md. Technique family: machine-checked proof in Coq; hand-written model tied to the code by a correspondence check on every run. ./check <id> prints KNOWN-FINDING lines for findings listed in KNOWN_FINDINGS.txt and VIOLATION lines otherwise.",
+    "notes": "See DESIGN.md. Technique family: machine-checked proof in Coq; hand-written model tied to the code by a correspondence check on every run. ./check <id> prints KNOWN-FINDING lines for findings listed in findings/Cxx.txt and VIOLATION lines otherwise.",
     "not_applicable": na,
 }
 json.dump(m, open(os.path.join(ROOT, "MANIFEST.json"), "w"), indent=1)
